@@ -488,6 +488,8 @@ class BaseClient:
             info["type"] = "dir" if link_dst[i] == "/" else "file"
             info["link_dst"] = link_dst
             s = link_src
+        if not s:
+            raise ValueError("no name")
         return pathlib.PurePosixPath(s), info
 
     def parse_list_line_windows(self, b):
@@ -522,6 +524,8 @@ class BaseClient:
         # whitespace, but if we were to try to detect such a condition
         # we would have to make strong assumptions about the input format
         filename = line[next_space:].lstrip()
+        if not filename:
+            raise ValueError("no name")
         if filename == "." or filename == "..":
             raise ValueError
         return pathlib.PurePosixPath(filename), info
@@ -819,9 +823,12 @@ class Client(BaseClient):
                     name, info = cls.parse_line(line)
                     # skipping . and .. as these are symlinks in Unix
                     if str(name) in (".", ".."):
+                        if not line.rstrip().endswith(b"."):
+                            # line without a name reads as "." too
+                            raise ValueError("no name", line)
                         continue
                     stat = cls.path / name, info
-                    if info["type"] == "dir" and recursive:
+                    if info.get("type") == "dir" and recursive:
                         cls.directories.append(stat)
                     return stat
 
